@@ -178,6 +178,7 @@ def oracle(mode, ops, body):
     """Returns a list of violated clauses (empty = the property holds on this trace)."""
     bad = []
     pend = []          # queued, not yet completely on the wire, not dropped: in submission order
+    finished = []      # completely on the wire
     live = True
     req_outstanding = False
     broken = False
@@ -232,7 +233,7 @@ def oracle(mode, ops, body):
             e.started = True
             data = data[n:]
             if e.sent == len(e.text):
-                pend.pop(0)
+                finished.append(pend.pop(0))
         if was_live and pend:
             pend[0].started = True      # every iteration attempts the oldest pending element
 
@@ -275,7 +276,10 @@ def oracle(mode, ops, body):
             got = bytes.fromhex(t[2:]) if t != "D=-" else b""
             exact = [e for e in pend if e.text == got]
             if not exact:
-                bad.append("drop returned %r which is not the text of a queued element" % got[:60])
+                if any(e.text == got for e in finished):
+                    bad.append("drop returned %r: that element is already completely on the wire" % got[:60])
+                else:
+                    bad.append("drop returned %r which is not the text of a queued element" % got[:60])
                 continue
             e = exact[0]
             if not e.user:
